@@ -670,10 +670,11 @@ Qed.
 Lemma step_event_winv w e : winv w ->
   winv (fst (step_event w e)) /\ cap (w_store (fst (step_event w e))) = cap (w_store w).
 Proof.
-  intros Hw. destruct e as [r|p| | |p sz]; simpl.
+  intros Hw. destruct e as [r|p| | |r'|p sz]; simpl.
   - destruct (do_request w r) as [w' o] eqn:D. simpl. eapply do_request_winv; eauto.
   - split; [exact Hw | reflexivity].
   - destruct (reopen_spec _ Hw) as (Hs' & Hc' & Hf'). split; [exact Hs'|exact Hc'].
+  - split; [exact Hw | reflexivity].
   - split; [exact Hw | reflexivity].
   - apply damage_winv, Hw.
 Qed.
@@ -691,12 +692,13 @@ Lemma run_events_frame h : forall w k,
   alookup k (w_content (run_events w h)) = alookup k (w_content w).
 Proof.
   unfold HitModel.run_events. induction h as [|e h IH]; intros w k Hu Hd; simpl; auto.
-  destruct e as [r|p| | |p sz]; simpl in *.
+  destruct e as [r|p| | |r'|p sz]; simpl in *.
   - destruct (do_request w r) as [w' o] eqn:D. simpl. rewrite IH by (intros; auto).
     eapply do_request_frame; eauto.
   - rewrite IH by auto. reflexivity.
   - rewrite IH by auto. reflexivity.
   - apply IH; auto.
+  - rewrite IH by auto. reflexivity.
   - rewrite IH by auto. unfold damage. destruct (alookup p (files (w_store w))); [|reflexivity].
     simpl. apply alookup_aremove_neq. intros ->. apply (Hd p); auto.
 Qed.
@@ -793,7 +795,7 @@ Notation event_fits := (event_fits compile).
 Lemma step_event_keeps w e : winv w -> event_fits w e = true ->
   forall k, In k (keys (index (w_store w))) -> In k (keys (index (w_store (fst (step_event w e))))).
 Proof.
-  intros Hw Hf k Hk. destruct e as [r|p| | |p sz]; simpl in *; auto.
+  intros Hw Hf k Hk. destruct e as [r|p| | |r'|p sz]; simpl in *; auto.
   - destruct (do_request w r) as [w' o] eqn:D. simpl. pose proof Hw as Hs. unfold winv in Hs.
     apply do_request_shape in D.
     destruct D as [? ? E1|s1 res t e ok ws1 G ? ? ? E1|s1 res t G ? E1|s1 res t e s2 stored rerr G ? ? P E1]; rewrite E1.
@@ -1199,6 +1201,37 @@ Qed.
 End Heal.
 
 (* ====================================================================== *)
+(* I. the server's own environment; a failed compiler probe                *)
+(* ====================================================================== *)
+
+(* what the server observes for the variables a crate reads is decided by the client's environment alone *)
+Theorem request_ignores_server_env srv srv' reads r : request_in srv reads r = request_in srv' reads r.
+Proof. reflexivity. Qed.
+
+Theorem key_ignores_server_env srv srv' reads r :
+  fingerprint_of (request_in srv reads r) = fingerprint_of (request_in srv' reads r).
+Proof. reflexivity. Qed.
+
+(* ... and a client that sets (or does not set) the variables the crate reads the same way gets the same
+   observation, whatever else differs in the two client environments *)
+Lemma observed_env_deps_ext srv srv' env env' reads :
+  (forall v, In v reads -> env_lookup v env' = env_lookup v env) ->
+  observed_env_deps srv' env' reads = observed_env_deps srv env reads.
+Proof.
+  intros H. unfold observed_env_deps, spawn_env. apply map_ext_in. intros v Hv. rewrite H; auto.
+Qed.
+
+Section Probe.
+Variable key_of : fingerprint -> key.
+Variable compile : request -> N -> cresult.
+
+(* a request that could not be served because the compiler could not be probed leaves the server exactly as it
+   was: nothing is remembered about the compiler, the cache and the counters are untouched *)
+Theorem failed_probe_leaves_no_trace w r : fst (step_event key_of compile w (EProbeFail r)) = w.
+Proof. reflexivity. Qed.
+End Probe.
+
+(* ====================================================================== *)
 (* concrete instances used by the non-vacuity examples of Properties/C03.v *)
 (* ====================================================================== *)
 
@@ -1244,5 +1277,13 @@ Definition wd (c : N) : world := damage (w1 c) (req_path kof r0) 200.
 Definition w_heal (c : N) : world := fst (do_request kof oracle (wd c) r0).
 Definition o_heal (c : N) : outcome := snd (do_request kof oracle (wd c) r0).
 Definition o_again (c : N) : outcome := snd (do_request kof oracle (w_heal c) r0).
+
+(* after r0 was stored: a restart, then r0 arrives while the compiler cannot be probed, then r0 again *)
+Definition w_pf (c : N) : world := run_events kof oracle (w1 c) [ERestart; EProbeFail r0; EDelete a_o].
+Definition o_pf (c : N) : outcome := snd (do_request kof oracle (w_pf c) r0).
+(* a crate reading BUILD_TAG, client without it, two servers started from different environments *)
+Definition tag_var : bytes := [66; 84].
+Definition r_tag (srv : list (bytes * bytes)) : request :=
+  request_in srv [tag_var] (rq 9 [45; 79] a_o [([70], [49])] 5).
 
 End C03Example.
